@@ -70,6 +70,7 @@ func checkMain(args []string) int {
 	verbose := fs.Bool("v", false, "print every obligation")
 	only := fs.String("only", "", "substring filter on unit names (debugging; evidence is not written)")
 	dump := fs.String("dump", "", "directory to dump failing SMT scripts into")
+	genOnly := fs.Bool("gen-only", false, "generate the obligations, write every script into -dump, and stop (determinism self-test)")
 	noEv := fs.Bool("noevidence", false, "do not write evidence or replay files into /verif (self-test runs against scratch trees)")
 	fs.Parse(args)
 	if *tier == "" {
@@ -208,6 +209,18 @@ func checkMain(args []string) int {
 	secs := 10
 	if *tier == "thorough" {
 		secs = 60
+	}
+	if *genOnly {
+		if *dump != "" {
+			os.MkdirAll(*dump, 0755)
+			for _, it := range items {
+				if it.Script != "" {
+					os.WriteFile(filepath.Join(*dump, sanitize(it.O.Name)+".smt2"), []byte(it.Script), 0644)
+				}
+			}
+		}
+		fmt.Printf("%s generated units=%d obligations=%d explicit=%d\n", *prop, len(gens), len(items), explicit)
+		return 0
 	}
 	// ---- solving ----
 	parallel(len(items), 12, func(i int) {
